@@ -455,6 +455,9 @@ func (a *ABI) Clear(req *labi.ClearRequest) (*labi.ClearResponse, error) {
 }
 
 func (a *ABI) Finalize(req *labi.FinalizeRequest) (*labi.FinalizeResponse, error) {
+	if err := a.record("Finalize"); err != nil {
+		return nil, err
+	}
 	return &labi.FinalizeResponse{}, nil
 }
 func (a *ABI) GetMetadata(req *labi.MetadataRequest) (*labi.MetadataResponse, error) {
